@@ -655,3 +655,124 @@ pub fn c03_node_level(ctx: &Ctx, rep: &mut Report) {
 fn names(l: &[usize]) -> Vec<&'static str> {
     l.iter().map(|i| C03_NAMES[*i]).collect()
 }
+
+// ---------------------------------------------------------------------------------------------
+// C08 node level: every accepted open request is answered exactly once while the peer stays
+// connected — on the real connection task, with a remote that stops answering (the proxy
+// black-holes the connection after the set-up) and more requests outstanding than yamux
+// acknowledges (256), so that both the inner negotiation timeout and the outer open timeout
+// of `TcpConnection` fire.
+// ---------------------------------------------------------------------------------------------
+
+struct OpenOut {
+    accepted: usize,
+    refused: usize,
+    opened: usize,
+    failed: usize,
+    closed: bool,
+}
+
+async fn c08_open_storm(seed: u64, exec: &ChaosExecutor, stall_after: Option<u64>, n_opens: usize) -> Result<OpenOut, String> {
+    let mut rng = Rng::new(seed);
+    let nut = spawn_side_with(&mk_cfg(rng.u64(), Duration::from_secs(60)), exec, None, false)?;
+    let remote = spawn_side_with(&mk_cfg(rng.u64(), Duration::from_secs(60)), exec, None, false)?;
+    let fault = match stall_after {
+        Some(off) => Fault::BlackholeAt { client_to_server: true, offset: off },
+        None => Fault::None,
+    };
+    let proxy = Proxy::start(remote.node.socket, ProxyPlan { delay: Duration::ZERO, chunk: 0, fault }).await.map_err(|e| e.to_string())?;
+    let (np, rp) = (nut.node.peer, remote.node.peer);
+    nut.node.dial_address(tcp_multiaddr(proxy.addr, Some(rp))).await?;
+    if !wait_until(Instant::now() + Duration::from_secs(5), || est_count(&nut.node, &rp) > 0 && est_count(&remote.node, &np) > 0).await {
+        return Err("not connected".into());
+    }
+    // the protocol has seen the connection
+    wait_until(Instant::now() + Duration::from_secs(2), || nut.pcount(|i, e| i == 0 && matches!(e, PEv::Est { .. })) > 0).await;
+    for k in 0..n_opens {
+        nut.send(0, PCmd::Open(rp));
+        if k % 64 == 63 {
+            tokio::time::sleep(Duration::from_millis(5)).await;
+        }
+    }
+    // all calls made
+    wait_until(Instant::now() + Duration::from_secs(5), || nut.pcount(|i, e| i == 0 && matches!(e, PEv::OpenCall { .. })) >= n_opens).await;
+    let accepted = nut.pcount(|i, e| i == 0 && matches!(e, PEv::OpenCall { ok: true }));
+    let refused = nut.pcount(|i, e| i == 0 && matches!(e, PEv::OpenCall { ok: false }));
+    // substream open timeout is 1.5 s (inner negotiation and outer open); allow 4 of them
+    let answered = |s: &Side| s.pcount(|i, e| i == 0 && matches!(e, PEv::SubOpened { inbound: false, .. } | PEv::SubFailed));
+    wait_until(Instant::now() + Duration::from_secs(6), || answered(&nut) >= accepted || nut.pcount(|i, e| i == 0 && matches!(e, PEv::Closed { .. })) > 0).await;
+    tokio::time::sleep(Duration::from_millis(300)).await;
+    Ok(OpenOut {
+        accepted,
+        refused,
+        opened: nut.pcount(|i, e| i == 0 && matches!(e, PEv::SubOpened { inbound: false, .. })),
+        failed: nut.pcount(|i, e| i == 0 && matches!(e, PEv::SubFailed)),
+        closed: nut.pcount(|i, e| i == 0 && matches!(e, PEv::Closed { .. })) > 0 || closed_count(&nut.node, &rp) > 0,
+    })
+}
+
+pub fn c08_node_level(ctx: &Ctx, rep: &mut Report) {
+    let rt = tokio::runtime::Builder::new_multi_thread().worker_threads(3).enable_all().build().expect("runtime");
+    let mut cases: Vec<(u64, Option<u64>, usize)> = Vec::new();
+    if let Some(path) = &ctx.replay {
+        let v: Value = serde_json::from_slice(&std::fs::read(path).expect("replay")).expect("json");
+        let r = &v["replay"];
+        cases.push((r["seed"].as_u64().unwrap_or(1), r["stall_after"].as_u64(), r["opens"].as_u64().unwrap_or(300) as usize));
+    } else {
+        let mut rng = ctx.rng("c08-node");
+        for k in 0..ctx.pick(3, 12) {
+            let stall = if k % 3 == 2 { None } else { Some(rng.range(600, 3000) as u64) };
+            let opens = *rng.pick(&[40usize, 300, 300, 420]);
+            cases.push((rng.u64(), stall, opens));
+        }
+    }
+    rt.block_on(async {
+        let lag = LagMonitor::start();
+        let exec = ChaosExecutor::new(tokio::runtime::Handle::current(), ctx.seed, 0.0);
+        for (seed, stall, opens) in cases {
+            rep.case(&("node-open-storm", seed, stall, opens), true);
+            let replay = json!({"family": "node-open-storm", "seed": seed, "stall_after": stall, "opens": opens});
+            match c08_open_storm(seed, &exec, stall, opens).await {
+                Err(e) => {
+                    rep.hit("node_open_storm_setup_failed");
+                    let _ = e;
+                }
+                Ok(o) => {
+                    rep.hit("node_open_storms");
+                    rep.count("node_open_requests_accepted", o.accepted as u64);
+                    rep.count("node_open_requests_refused_by_call", o.refused as u64);
+                    rep.count("node_open_requests_opened", o.opened as u64);
+                    rep.count("node_open_requests_failed", o.failed as u64);
+                    let answered = o.opened + o.failed;
+                    if answered > o.accepted {
+                        rep.violation(
+                            "C08/node/more-answers-than-accepted-open-requests",
+                            format!("{} accepted, {} opened + {} failed", o.accepted, o.opened, o.failed),
+                            replay,
+                        );
+                    } else if answered < o.accepted && !o.closed {
+                        if lag.peek_max_ms() > 1500 {
+                            rep.inconclusive("C08 node level: runtime starved");
+                        } else {
+                            rep.violation(
+                                format!("C08/node/open-request-never-answered/{}", if stall.is_some() { "remote-stalled" } else { "healthy-remote" }),
+                                format!(
+                                    "{} open requests accepted, {} opened + {} failed, {} never answered although the peer is still connected (proxy stalls after {:?} bytes)",
+                                    o.accepted,
+                                    o.opened,
+                                    o.failed,
+                                    o.accepted - answered,
+                                    stall
+                                ),
+                                replay,
+                            );
+                        }
+                    } else {
+                        rep.hit("node_open_storm_all_answered_once");
+                    }
+                }
+            }
+        }
+    });
+    rep.floor("node_open_storm_all_answered_once", 12);
+}
